@@ -88,8 +88,8 @@ def batches(ctx):
         {"name": "second_save", "n": n["second_save"], "fault_free": True},
         {"name": "clock", "n": n["clock"], "fault_free": True},
         {"name": "pipe", "n": n.get("pipe", 0), "fault_free": True},
-        {"name": "order", "n": n.get("order", 0), "fault_free": True},
-        {"name": "hashsweep", "n": n.get("hashsweep", 0), "fault_free": True},
+        {"name": "order", "n": n.get("order", 0), "fault_free": True, "front": 0.6},
+        {"name": "hashsweep", "n": n.get("hashsweep", 0), "fault_free": True, "front": 0.6},
     ]
 
 
